@@ -72,5 +72,22 @@ def run(facts, rep, tier, ctx):
     c09.table_u(facts, rep, ws, "R17.4o", only=("create_dir",))
     c09.materialisation_rules(facts, rep, ws, "R17.4o")
     c10.marker_rules(facts, rep, ws, prefix="R17.4m", only=("R10.3",))
+    # the async backends and adapters (their own copies of create_dir)
+    wa = World(facts, True)
+    if wa.present():
+        A = c10._Prefixed(rep, "A")
+        scratch = Report("xa")
+        c01.table_m(facts, scratch, "M", "Mk", self_ty=wa.memory, trait="AsyncFileSystem", ops_filter=("create_dir",))
+        k = 0
+        for o in scratch.obligations:
+            k += 1
+            A.ob("R17.3", o["fn"], o["key"].split("|")[2], o["ok"], o["detail"], o["loc"])
+        k += physrules.table_o_shape(facts, A, "R17.3p", wa)
+        k += physrules.mkdir_not_asked(facts, A, "R17.3p", wa, D)
+        k += c07.delegation(facts, A, wa, "R17.4a", D)
+        k += c09.table_u(facts, A, wa, "R17.4o", only=("create_dir",))
+        k += c09.materialisation_rules(facts, A, wa, "R17.4o")
+        k += c10.marker_rules(facts, A, wa, prefix="R17.4m", only=("R10.3",))
+        rep.floor("async backend/adapter create_dir obligations", k, 60)
     rep.assume("no concurrent removals and no files in the way (stated by the property)")
     rep.assume("mkdir(2) is atomic")
